@@ -13,7 +13,6 @@ An unscripted chi^2 smoke test (7 sigma) guards the scripting itself.
 import numpy as np
 
 from vf import vihelp as vh
-from vf.runner import Skip
 
 META = dict(
     id="C18", level="exploration",
@@ -36,8 +35,8 @@ META = dict(
     need=["cl_cov_compared", "re_cov_compared", "cl_mirror_bitwise", "re_mirror_bitwise",
           "cl_pe_zero_checked", "re_pe_zero_checked", "cl_geovi_unchanged", "re_nonlinear_unchanged",
           "cl_sample_mean", "re_sample_mean", "smoke_chi2"],
-    quick=dict(cases=300, workers=8, budget_s=75),
-    thorough=dict(cases=10000, workers=16, budget_s=780),
+    quick=dict(cases=420, workers=8, budget_s=75),
+    thorough=dict(cases=20000, workers=16, budget_s=780),
     design_ref="DESIGN.md §5 C18",
     level_text=("exact observation of the residual map of the real samplers on generated small models; "
                 "exploration of models x drivers x options, not exhaustive"),
@@ -73,13 +72,17 @@ def _cov_oracle(mir, x0, liq):
     Msub = mir.metric_sub(x0, liq)
     cond = np.linalg.cond(Msub)
     if not np.isfinite(cond) or cond > 1e6:
-        raise Skip("metric condition number > 1e6")
+        raise vh.SkipCase("metric condition number > 1e6")
     C = np.zeros((mir.n, mir.n))
     C[np.ix_(liq, liq)] = np.linalg.inv(Msub)
     return C
 
 
 def case(ck, i):
+    return vh.run_case(ck, _case, i)
+
+
+def _case(ck, i):
     rng = ck.rng()
     # the case family is drawn (not derived from i) so that the round-robin dealing of indices
     # over workers does not put all the expensive JAX cases on the same worker
@@ -350,7 +353,7 @@ def case_re(ck, rng, force=None):
     ok = (infos == 0)
     if not np.all(ok):
         ck.hit("re_cg_not_converged", int(np.sum(~ok)))
-        raise Skip("JAX CG reported info != 0 for a scripted draw")
+        raise vh.SkipCase("JAX CG reported info != 0 for a scripted draw")
     if not np.all(np.isfinite(A)):
         raise RuntimeError("harness: NaN in scripted residuals (a key was not in the script table)")
     L = A[:W].T
@@ -449,7 +452,7 @@ def smoke(ck, rng, api):
                 nontrivial=len(mir.keys) >= 2 or vh.is_rank_deficient(m), klass="smoke:cl")
         M = mir.metric(x0)
         if np.linalg.cond(M) > 1e6:
-            raise Skip("metric condition number > 1e6")
+            raise vh.SkipCase("metric condition number > 1e6")
         ic = ift.GradientNormController(tol_abs_gradnorm=1e-11, iteration_limit=200)
         ham = ift.StandardHamiltonian(b["lh"], ic, prior_sampling_dtype=float)
         with ift.random.Context(seed):
@@ -464,13 +467,13 @@ def smoke(ck, rng, api):
                 nontrivial=len(mir.keys) >= 2 or vh.is_rank_deficient(m), klass="smoke:re")
         M = mir.metric(x0)
         if np.linalg.cond(M) > 1e6:
-            raise Skip("metric condition number > 1e6")
+            raise vh.SkipCase("metric condition number > 1e6")
         ovi = jft.OptimizeVI(lh, 1, residual_map="vmap", linear_minimizer_jit=True)
         ks = jax.random.split(jax.random.PRNGKey(kseed), N)
         smp, st = ovi.draw_linear_samples(pos, ks, cg=jft.conjugate_gradient.static_cg,
                                           cg_kwargs=dict(CGKW))
         if not np.all(np.asarray(st) == 0):
-            raise Skip("JAX CG reported info != 0")
+            raise vh.SkipCase("JAX CG reported info != 0")
         Rm = vh.re_vec(mir, smp._samples, batch=2 * N)[0::2]
     if Rm.shape != (N, mir.n):
         ck.violation(f"sample-count:smoke:{api}", "unexpected number of samples", shape=list(Rm.shape))
